@@ -50,7 +50,10 @@ class Path:
 
 
 class Engine:
-    def __init__(self, max_decisions=400, max_paths=4000, timeout_ms=20000):
+    def __init__(self, max_decisions=400, max_paths=4000, timeout_ms=20000, max_seconds=None):
+        self.max_seconds = max_seconds  # wall-clock budget of one exploration (a bound: exceeding it is reported, never a pass)
+        self.t0 = None
+        self.aborted = 0
         self.solver = z3.Solver()
         self.solver.set("timeout", timeout_ms)
         self.timeout_ms = timeout_ms
@@ -142,6 +145,7 @@ class Engine:
             return d
         if len(self.decisions) >= self.max_decisions:
             raise BoundHit(f"more than {self.max_decisions} decisions on one path")
+        self._check_clock()
         self.branch_decisions += 1
         guess = self._eval_under_model(cond)
         if guess is None:
@@ -170,6 +174,10 @@ class Engine:
         self.path.pc.append(c)
         self.solver.add(c)
         return guess
+
+    def _check_clock(self):
+        if self.max_seconds is not None and self.t0 is not None and _time.time() - self.t0 > self.max_seconds:
+            raise BoundHit(f"exploration exceeded its wall-clock budget of {self.max_seconds} s")
 
     def choose(self, n: int, label: str = "") -> int:
         """Structural selector: explore 0..n-1 exhaustively (no solver involved)."""
@@ -217,8 +225,10 @@ class Engine:
         prev = ENGINE
         ENGINE = self
         paths = []
+        self.t0 = _time.time()
         try:
             while True:
+                self._check_clock()
                 self.pos = 0
                 self.path = Path()
                 self.solver.reset()
@@ -238,7 +248,9 @@ class Engine:
                     if len(paths) > self.max_paths:
                         raise BoundHit(f"more than {self.max_paths} paths")
                 except PathAbort:
-                    pass
+                    self.aborted += 1
+                    if self.aborted > 20 * self.max_paths:
+                        raise BoundHit(f"more than {20 * self.max_paths} infeasible path prefixes") from None
                 # backtrack
                 while self.decisions and not self.decisions[-1][2]:
                     self.decisions.pop()
